@@ -4,6 +4,7 @@ stdout: JSON {"results":[{"ok":bool,"dump":..,"unstr":..|null,"unstr_ok":bool,"e
 Targets are names in lsprotocol.types.ALL_TYPES_MAP (classes or module-level alias objects)."""
 import enum
 import json
+import os
 import sys
 
 import attrs
@@ -13,22 +14,7 @@ from lsprotocol import types as T
 
 
 
-def _make_converter():
-    """VERIF_CONV_CFG selects how the converter under test is created (C19: every configuration must behave alike on valid input)"""
-    import os
-    cfg = os.environ.get("VERIF_CONV_CFG", "")
-    if cfg in ("nodetail", "detail", "user"):
-        import cattrs
-        base = {"nodetail": lambda: cattrs.Converter(detailed_validation=False), "detail": lambda: cattrs.Converter(detailed_validation=True),
-                "user": lambda: cattrs.Converter()}[cfg]()
-        return converters.get_converter(base)
-    if cfg == "third":
-        converters.get_converter()
-        converters.get_converter()
-    return converters.get_converter()
-
-
-conv = _make_converter()
+conv = None      # created in main(): the warm-up of the 'after-foreign' configuration needs the cases (lib/conv_cfg.py)
 
 
 def dump(v):
@@ -280,7 +266,17 @@ def no_handler(e, target_name):
 
 
 def main():
+    global conv
     req = json.load(sys.stdin)
+    import conv_cfg
+    warm = []
+    if os.environ.get("VERIF_CONV_CFG") == "after-foreign":
+        for c in req["cases"]:
+            try:
+                warm.append((target(c["target"]), c["input"]))
+            except BaseException:  # noqa
+                pass
+    conv = conv_cfg.make_converter(warm)
     res = []
     for c in req["cases"]:
         try:
